@@ -717,3 +717,77 @@ Section Key.
     destruct (Rsame a r Hr Hq) as (Ho & _). rewrite Ho. destruct (c_q r); discriminate.
   Qed.
 End Key.
+
+(* ================================================================ (4) at and beyond the retention *)
+
+Section Expiry.
+  Variable timeout : Z.
+
+  (* the sweeper's decision for one record: kept iff seen less than the timeout ago (the code's comparison
+     now.Sub(LastSeen) >= timeout); removed records' queues are closed with what was left in them *)
+  Theorem sweep_boundary t now a r : GInv t -> rec_of (tcm t) a = Some r ->
+    let t' := tstep timeout t (T_Sweep now) in
+    ((now - c_seen r < timeout)%Z -> rec_of (tcm t') a = Some r) /\
+    ((now - c_seen r >= timeout)%Z -> rec_of (tcm t') a = None /\ In (c_qid r, c_q r) (dead (tcm t'))).
+  Proof.
+    intros G Hr. cbn zeta. cbn [tstep tcm]. destruct (sweep_rec now timeout (tcm t) (g_cm t G)) as (_ & _ & W3 & _ & W5).
+    cbn zeta in *. split; intros H.
+    - apply W3; [exact Hr|]. unfold expired. rewrite Z.geb_leb. apply Z.leb_gt. lia.
+    - apply W5; [exact Hr|]. unfold expired. rewrite Z.geb_leb. apply Z.leb_le. lia.
+  Qed.
+
+  (* every touch refreshes last-seen: after WriteTo the record of the key was seen [now] *)
+  Theorem writeto_touches t cid p now : GInv t ->
+    exists r, rec_of (tcm (tstep timeout t (T_WriteTo cid p now))) (cid_key cid) = Some r /\ c_seen r = now.
+  Proof.
+    intros G. cbn [tstep]. pose proof (g_cm t G) as Gc.
+    destruct (live_send_queue (cid_key cid) now (tcm t) Gc) as (L1 & _ & _ & _ & (r & Hr & Hq & Hs & _)). cbn zeta in *.
+    destruct (send_queue (cid_key cid) now (tcm t)) as [c1 q0]. cbn [fst snd] in *. subst q0.
+    destruct (q_send_rec QUEUE_SIZE p c1 (cid_key cid) r L1 Hr) as (_ & _ & _ & _ & Hr2 & _). cbn zeta in Hr2.
+    destruct (q_send QUEUE_SIZE (c_qid r) p c1) as [c2 ok]. cbn [fst tcm] in *.
+    eexists. split; [exact Hr2|]. cbn. exact Hs.
+  Qed.
+
+  (* after an expiry the next packet for the session goes into a NEW queue: an identity no queue, no carrier and no
+     log entry ever had; it starts with exactly that packet *)
+  Theorem new_incarnation t cid p now : GInv t -> rec_of (tcm t) (cid_key cid) = None ->
+    let t' := tstep timeout t (T_WriteTo cid p now) in
+    exists r, rec_of (tcm t') (cid_key cid) = Some r /\ c_qid r = next_qid (tcm t) /\ c_seen r = now /\ c_q r = [p] /\
+              (forall q b, tied t q b -> (q < c_qid r)%nat) /\
+              tacc t' = tacc t ++ [(cid_key cid, c_qid r, p)].
+  Proof.
+    intros G Hnone. cbn zeta. cbn [tstep]. pose proof (g_cm t G) as Gc.
+    pose proof (send_queue_rec (cid_key cid) now (tcm t) Gc) as (L1 & _ & _ & Hcase). rewrite Hnone in Hcase.
+    destruct Hcase as (Hq & Hr & _).
+    destruct (send_queue (cid_key cid) now (tcm t)) as [c1 q0]. cbn [fst snd] in *. subst q0.
+    pose proof (q_send_rec QUEUE_SIZE p c1 (cid_key cid) _ L1 Hr) as (_ & Hok & _ & _ & Hr2 & _). cbn zeta in *.
+    cbn [c_qid c_q length] in *. change (0 <? QUEUE_SIZE)%nat with true in *.
+    destruct (q_send QUEUE_SIZE (next_qid (tcm t)) p c1) as [c2 ok]. cbn [fst snd tcm tacc] in *. subst ok.
+    eexists. split; [exact Hr2|]. cbn. repeat split. intros q b H. apply (g_lt t G q b H).
+  Qed.
+End Expiry.
+
+(* a decidable form of the freshness condition, for concrete schedules *)
+Section FreshB.
+  Variable timeout : Z.
+  Variable a : N.
+  Definition staleb (t : tstate) (o : top) : bool :=
+    match o with
+    | T_Sweep now => match rec_of (tcm t) a with Some r => expired now timeout r | None => false end
+    | _ => false
+    end.
+  Fixpoint fresh_fromb (t : tstate) (ops : list top) : bool :=
+    match ops with
+    | [] => true
+    | o :: r => (negb (staleb t o) && fresh_fromb (tstep timeout t o) r)%bool
+    end.
+  Lemma staleb_false t o : staleb t o = false -> ~ stale timeout a t o.
+  Proof.
+    unfold staleb, stale. destruct o; try (intros _ []). intros H [r [Hr He]]. rewrite Hr in H. congruence.
+  Qed.
+  Lemma fresh_fromb_ok : forall ops t, fresh_fromb t ops = true -> fresh_from timeout a t ops.
+  Proof.
+    induction ops as [|o ops IH]; intros t H; cbn in *; [exact I|]. apply andb_prop in H. destruct H as [H1 H2].
+    split; [apply staleb_false; apply negb_true_iff; exact H1 | apply IH; exact H2].
+  Qed.
+End FreshB.
